@@ -313,4 +313,79 @@ theorem rebuild_from_split (x : ℚ) (h : |x| < 360) :
 example : dms2deg 0 (-5) (-30) = -(5 / 60 + 30 / 3600) ∧ deg2dms (-(5 / 60 + 30 / 3600)) = (0, 5, 30, -1) := by
   decide +kernel
 
+/-- The rounding carry fires exactly at the boundary (for `0 ≤ n_dec ≤ 10`): if the seconds rounded at
+    `n_dec` are not 60 the printed fields are the split fields with the rounded seconds, untouched;
+    if they are exactly 60 the seconds show 0 and minutes / degrees advance by one minute with the
+    wrap-arounds `60' -> 1d` and `360d -> 0d` — for EVERY value, including the boundary values themselves. -/
+theorem carry_exactly_at_sixty (x : ℚ) (n : ℤ) (h : |x| < 360) (hn : 0 ≤ n) (h10 : n ≤ 10) :
+    ∃ (d m : ℤ) (s sg : ℚ), deg2dms x = (d, m, s, sg) ∧
+      (proundn s n ≠ 60 → dms_fields x n = (d, m, proundn s n, sg)) ∧
+      (proundn s n = 60 → dms_fields x n = ((d + (m + 1) / 60) % 360, (m + 1) % 60, 0, sg)) := by
+  obtain ⟨d, m, s, sg, D, M, S, e, hs, hf, hsg, d0, d1, m0, m1, s0, s1, hv, D0, D1, _, M0, M1, S0, S1, _, hpos⟩ :=
+    dms_fields_full (L := 360) (le_refl _) (by exact_mod_cast h) n
+  obtain ⟨_, he0, hval⟩ := hpos hn
+  rw [he0 h10, add_zero] at hval
+  have hform := dms_fields_seconds_form hs hn
+  rw [hf] at hform
+  simp only at hform
+  have hs'0 := proundn_nonneg s0 n
+  have hs'60 : proundn s n ≤ ((60 : ℤ) : ℚ) := proundn_le_int (by push_cast; linarith) hn
+  push_cast at hs'60
+  have hDq : (0 : ℚ) ≤ (D : ℚ) := by exact_mod_cast D0
+  have hMq : (0 : ℚ) ≤ (M : ℚ) := by exact_mod_cast M0
+  have hdq : (d : ℚ) ≤ 359 := by exact_mod_cast (by omega : d ≤ 359)
+  have hmq : (m : ℚ) ≤ 59 := by exact_mod_cast (by omega : m ≤ 59)
+  have hd0q : (0 : ℚ) ≤ (d : ℚ) := by exact_mod_cast d0
+  have hm0q : (0 : ℚ) ≤ (m : ℚ) := by exact_mod_cast m0
+  refine ⟨d, m, s, sg, hs, fun hne => ?_, fun heq => ?_⟩
+  · -- no carry: the rounded seconds are below 60, so both sides are canonical and equal field by field
+    have hlt : proundn s n < 60 := lt_of_le_of_ne hs'60 hne
+    have hval' : (D : ℚ) + (M : ℚ) / 60 + S / 3600 = (d : ℚ) + (m : ℚ) / 60 + proundn s n / 3600 := by
+      rcases hval with hv' | hv'
+      · exact hv'
+      · exfalso
+        have : (0 : ℚ) ≤ (D : ℚ) + (M : ℚ) / 60 + S / 3600 := by positivity
+        linarith
+    have hS : S = proundn s n := by
+      rcases hform with e0 | e0
+      · -- S = 0: then 3600 (D - d) + 60 (M - m) = s', a multiple of 60 in [0, 60): s' = 0
+        have hj : proundn s n = 60 * (((60 * (D - d) + (M - m) : ℤ)) : ℚ) := by
+          rw [e0] at hval'; push_cast; linarith
+        set j : ℤ := 60 * (D - d) + (M - m) with hjdef
+        have hj1 : (j : ℚ) < 1 := by linarith
+        have hj0 : (-1 : ℚ) < j := by linarith
+        have : j = 0 := by
+          have a1 : j < 1 := by exact_mod_cast hj1
+          have a2 : -1 < j := by exact_mod_cast hj0
+          omega
+        rw [hj, this, e0]; simp
+      · exact e0
+    have hDM : 60 * D + M = 60 * d + m := by
+      have : (60 : ℚ) * D + M = 60 * d + m := by rw [hS] at hval'; linarith
+      exact_mod_cast this
+    have hM : M = m := by omega
+    have hD : D = d := by omega
+    rw [hf, hD, hM, hS]
+  · -- carry: seconds show 0, one minute is added with wrap-arounds
+    have hS : S = 0 := by
+      rcases hform with e0 | e0
+      · exact e0
+      · exfalso; rw [e0, heq] at S1; exact lt_irrefl _ S1
+    rw [hS, heq] at hval
+    have hDM : 60 * D + M = 60 * d + m + 1 ∨ 60 * D + M = 60 * d + m + 1 - 21600 := by
+      rcases hval with hv' | hv'
+      · left
+        have : (60 : ℚ) * D + M = 60 * d + m + 1 := by linarith
+        exact_mod_cast this
+      · right
+        have : (60 : ℚ) * D + M = 60 * d + m + 1 - 21600 := by linarith
+        exact_mod_cast this
+    have hM : M = (m + 1) % 60 := by omega
+    have hD : D = (d + (m + 1) / 60) % 360 := by omega
+    rw [hf, hD, hM, hS]
+
+/-- just below the boundary nothing carries; at the boundary it does -/
+example : dms_fields (10 + 59.94 / 3600) 1 = (10, 0, 59.9, 1) ∧ dms_fields (10 + 59.96 / 3600) 1 = (10, 1, 0, 1) ∧
+    proundn 59.96 1 = 60 := by decide +kernel
+
 end Pymeeus.C04
